@@ -50,11 +50,14 @@ def analyse(check, proj, name):
                         A.assume_nonneg(A.const(THRESH) - p)
                 elif regime == "below":
                     continue
+                stage = "phi(a, b)"
                 try:
                     v = lc.phi(A, it, a, b)
                     vpath, nfree = lc.path, lc.free_used
+                    stage = "phi(b, a), the arguments exchanged"
                     vs = lc.phi(A, it, b, a)
                     nfree += lc.free_used
+                    stage = "phi(-a, -b)"
                     vo = lc.phi(A, it, -a, -b)
                     nfree += lc.free_used
                 except AnalysisError as e:
@@ -63,7 +66,7 @@ def analyse(check, proj, name):
                         bad(v_[0], v_[2], v_[3])
                         continue
                     if "division by literal zero" in str(e):
-                        bad("LIM-DEFINED", "in region %s the body divides by an expression that vanishes there (0/0): numpy evaluates both branches of np.where before selecting, so plain Python floats raise ZeroDivisionError and arrays compute an invalid value first" % rname, "defined")
+                        bad("LIM-DEFINED", "in region %s, evaluating %s, the body divides by an expression that vanishes there (x/0, 0/0 on flat data): numpy evaluates both branches of np.where before selecting, so plain Python floats raise ZeroDivisionError and arrays compute an invalid value first" % (rname, stage), "defined")
                     else:
                         und.append("%s: %s" % (rname, e))
                     continue
